@@ -97,3 +97,23 @@ Qed.
 Lemma clean_spec_length_tight : length (clean_spec (S2B "a")) = S (length (S2B "a")).
 Proof. reflexivity. Qed.
 
+
+Lemma last_cons_ne (x : bytes) (l : list bytes) d : l <> [] -> last (x :: l) d = last l d.
+Proof. destruct l; [congruence|reflexivity]. Qed.
+
+(* an absolute path never grows: CleanPath only adds a byte to a relative path *)
+Lemma clean_spec_length_abs t : length (clean_spec ("/" :: t)) <= length ("/" :: t).
+Proof.
+  unfold clean_spec. cbv zeta.
+  assert (Hs : split_slash ("/" :: t) [] = [] :: split_slash t []) by reflexivity.
+  rewrite Hs. clear Hs.
+  pose proof (split_nonempty t []) as Hne.
+  rewrite !(last_cons_ne _ _ _ Hne).
+  rewrite process_cons. cbn [push1].
+  pose proof (process_len (split_slash t []) [] Hne) as H.
+  rewrite split_join_len in H. cbn [join flat_map List.length] in H.
+  rewrite Nat.add_0_r in H.
+  destruct (process (split_slash t []) []) as [|o out]; [cbn; lia|].
+  rewrite app_length. unfold slack in H.
+  destruct (is_empty (last (split_slash t []) []) || is_dot (last (split_slash t []) [])); cbn [List.length] in *; lia.
+Qed.
